@@ -231,10 +231,14 @@ pub fn replay(o: &Opts) -> Value {
                 }
             }
             for quote in 0..3u8 {
-                for indent in [None, Some((' ', 2)), Some(('\t', 1))] {
+                // (the last one: an indent wider than the serializer's initial indent cache of 128 bytes)
+                for indent in [None, Some((' ', 2)), Some(('\t', 1)), Some((' ', 131))] {
                     for expand in [false, true] {
                         if !rt && indent.is_some() {
                             continue; // hostile strings may be whitespace-only: indentation comparison not meaningful
+                        }
+                        if matches!(indent, Some((_, 131))) && (quote != 0 || expand) {
+                            continue;
                         }
                         let so = SerOpts { quote, indent, expand_empty: expand, root: root.clone() };
                         let out = ser(ty, &v, &so);
@@ -363,6 +367,20 @@ pub fn replay(o: &Opts) -> Value {
             }
         }
     }
+    // deterministic: values nested beyond the indent cache (depth x width > 128 bytes), every aspect
+    let (r2, bad) = deep_nesting();
+    runs += r2;
+    cmp += r2;
+    if let Some((what, detail)) = bad {
+        viol += 1;
+        if files.len() < 5 {
+            let path = format!("{}/{}-deep-{}.json", o.out_dir, o.prop, files.len());
+            std::fs::create_dir_all(&o.out_dir).ok();
+            std::fs::write(&path, serde_json::to_string_pretty(&json!({"property": o.prop, "kind": "serde-deep", "aspect": o.aspect, "what": what, "detail": detail})).unwrap()).ok();
+            println!("VIOLATION property={} replay={}", o.prop, path);
+            files.push(path);
+        }
+    }
     let mut d = Map::new();
     if drift > 0 {
         d.insert("serializer-accepts-or-rejects-differently-from-model".into(), json!(drift));
@@ -372,6 +390,46 @@ pub fn replay(o: &Opts) -> Value {
         devs.insert("C14-1".into(), json!(known_c14_1));
     }
     json!({"behaviours": n, "runs": runs, "comparisons": cmp, "nontrivial": nontriv, "violations": viol, "samples": samples, "drift": d, "devs_used": devs})
+}
+
+/// A chain of nested structs `<R><e><e>..x..</e></e></R>` of the given depth serialized with the given indentation: the
+/// serializer must return a well-formed document of exactly that nesting that deserializes to the value (C06, C13, C19).
+/// Depth x width crosses the serializer's indent cache (128 bytes initially).  Returns (runs, first problem).
+pub fn deep_nesting() -> (u64, Option<(String, Value)>) {
+    use crate::dynser::{Field, Ty};
+    let mut runs = 0u64;
+    for (depth, indent) in [(70usize, Some((' ', 2usize))), (40, Some((' ', 4))), (140, Some(('\t', 1))), (3, Some((' ', 150))), (66, Some((' ', 2))), (70, None)] {
+        let mut ty = Ty::Str;
+        let mut v = json!({"s": [120]});
+        for _ in 0..depth {
+            ty = Ty::Struct(vec![Field { jkey: "e".into(), ty }]);
+            v = json!({"o": [[[101], v]]});
+        }
+        let r = catch_unwind(AssertUnwindSafe(|| {
+            let doc = crate::dynser::ser(&ty, &v, "R", &crate::dynser::SerOpts { quote: 0, indent, expand_empty: false })?;
+            well_formed(&doc)?;
+            let opens = doc.matches("<e>").count();
+            let closes = doc.matches("</e>").count();
+            if opens != depth || closes != depth || !doc.starts_with("<R>") || !doc.trim_end().ends_with("</R>") {
+                return Err(format!("nesting of the document differs from the value: {opens} <e>, {closes} </e>, depth {depth}"));
+            }
+            if indent.is_none() && doc.contains(char::is_whitespace) {
+                return Err("white space in a document written without indentation".into());
+            }
+            let back = crate::dynser::de_str(&ty, &doc)?;
+            if back != v {
+                return Err("the document does not deserialize to the value".into());
+            }
+            Ok::<(), String>(())
+        }));
+        runs += 1;
+        match r {
+            Ok(Ok(())) => {}
+            Ok(Err(e)) => return (runs, Some(("deep-nesting".into(), json!({"depth": depth, "indent": format!("{indent:?}"), "error": e})))),
+            Err(_) => return (runs, Some(("panic".into(), json!({"depth": depth, "indent": format!("{indent:?}")})))),
+        }
+    }
+    (runs, None)
 }
 
 /// Mixed content in front of everything else: an element the target skips whose content is (or ends with) text, followed by
